@@ -161,13 +161,13 @@ Proof.
     { cbn [step] in E. destruct (alookup u (upds s)); [|injection E as _ <-; discriminate].
       unfold outcome in E. match type of E with (match ?m with _ => _ end) = _ => destruct m as [[? ?]| |] end;
         injection E as _ <-; try discriminate. reflexivity. }
-    subst ob. apply commit1_form in E as (x & c & t' & Lu & Lc & _ & ->).
+    subst ob. apply commit1_form in E as (x & c & t' & ns' & Lu & Lc & _ & ->).
     pose proof (RU u) as Hu. rewrite Lu in Hu. cbn [upd_view] in Hu. rewrite Hu.
     match goal with |- R ?st _ => set (s' := st) end.
     assert (G : forall y, cache_get s' y = if y =? u_cid x then u_roots x else cache_get s y)
       by (apply cache_get_upd; reflexivity).
     split.
-    + intros id0 c0 [HL HR]. cbn [s' dbs set_upds set_cache set_dbs set_t1 t1 t2] in HL.
+    + intros id0 c0 [HL HR]. cbn [s' dbs set_upds set_cache set_dbs set_t1 set_nsec t1 t2] in HL.
       rewrite aget_aset, G. destruct (id0 =? u_cid x) eqn:Ei; [reflexivity|].
       rewrite alookup_aset, Ei in HL. apply (RL id0 c0). now split.
     + intros u'. cbn [s' apend upds set_upds]. rewrite alookup_aset. destruct (u' =? u) eqn:Eu.
@@ -205,12 +205,12 @@ Proof.
     { cbn [step] in E. unfold outcome in E.
       match type of E with (match ?m with _ => _ end) = _ => destruct m as [[? ?]| |] end;
         injection E as _ <-; try discriminate. reflexivity. }
-    subst ob. apply revise2_form in E as (e & t' & Le & Re & _ & _ & _ & ->).
+    subst ob. apply revise2_form in E as (e & t' & ns' & Le & Re & _ & _ & _ & ->).
     match goal with |- R ?st _ => set (s' := st) end.
     assert (G : forall y, cache_get s' y = if y =? id then newroots else cache_get s y)
       by (apply cache_get_upd; reflexivity).
     split; [|exact RU].
-    intros id0 c0 [HL HR]. cbn [s' dbs set_cache set_dbs set_t2 t1 t2] in HL. rewrite aget_aset, G.
+    intros id0 c0 [HL HR]. cbn [s' dbs set_cache set_dbs set_t2 set_nsec t1 t2] in HL. rewrite aget_aset, G.
     destruct (id0 =? id) eqn:Ei; [reflexivity|].
     rewrite alookup_aset, Ei in HL. apply (RL id0 c0). now split.
   - (* Renew2 *)
@@ -241,6 +241,7 @@ Proof.
       injection E as <- <-; discriminate.
   - cbn [step] in E. unfold look in E. destruct (alookup id (t1 (dbs s))); injection E as <- <-; discriminate.
   - cbn [step] in E. unfold look in E. destruct (alookup id (t2 (dbs s))); injection E as <- <-; discriminate.
+  - cbn [step] in E. injection E as <- <-. discriminate.
   - cbn [step] in E. injection E as <- <-. discriminate.
   - (* Restart *) cbn [step] in E. injection E as <- _. split; [|reflexivity].
     intros id0 c0 HL.
